@@ -406,6 +406,8 @@ class X:
                     return ('bound', f, b)
             raise Unsupported('attribute %s.%s' % (b.tag, name))
         if isinstance(b, Opaque):
+            if b.tag in ('import:numpy', 'import:np') and name in ('nan', 'inf'):
+                return z3.Real('np_' + name)          # an unspecified real: only reachable on guarded paths
             return Opaque(b.tag + '.' + name)
         if isinstance(b, Module):
             if name in b.funcs:
